@@ -39,11 +39,7 @@ func VerifHarness_C16_SpecNamesAndArities() {
 	for k := range verifSpecArity {
 		specNames = append(specNames, k)
 	}
-	for i := 1; i < len(specNames); i++ {
-		for j := i; j > 0 && specNames[j] < specNames[j-1]; j-- {
-			specNames[j], specNames[j-1] = specNames[j-1], specNames[j]
-		}
-	}
+	verifrt.SortStrings(specNames)
 	name := specNames[verifrt.Choose("fn", len(specNames))]
 	fn, ok := t[name]
 	verifrt.Assert(ok, "specification-name-is-in-the-table")
@@ -89,11 +85,7 @@ func VerifHarness_C16_BoundToSameName() {
 	for k := range want {
 		names = append(names, k)
 	}
-	for i := 1; i < len(names); i++ {
-		for j := i; j > 0 && names[j] < names[j-1]; j-- {
-			names[j], names[j-1] = names[j-1], names[j]
-		}
-	}
+	verifrt.SortStrings(names)
 	name := names[verifrt.Choose("fn", len(names))]
 	t := verifFullTable()
 	fn, ok := t[name]
@@ -111,11 +103,7 @@ func VerifHarness_C16_UnimplementedExplicit() {
 	for k := range verifUnimplemented {
 		names = append(names, k)
 	}
-	for i := 1; i < len(names); i++ {
-		for j := i; j > 0 && names[j] < names[j-1]; j-- {
-			names[j], names[j-1] = names[j-1], names[j]
-		}
-	}
+	verifrt.SortStrings(names)
 	name := names[verifrt.Choose("fn", len(names))]
 	t := verifFullTable()
 	fn, ok := t[name]
